@@ -103,6 +103,9 @@ Definition run (name : string) (a : val) : val :=
   else if is name "measure" then
          let '(t, outs, lp, cl) := measure (dTab a0) (dPlist a1) (dL dZ a2) in
          VL [eTab t; eL VZ outs; VZ lp; eN (length cl)]
+  else if is name "measure_flags" then
+         eL eB ((fix go (t : tableau) (os : plist) : list bool :=
+                   match os with [] => [] | o :: r => let '(t1, _, _, u) := measure1 t o 0 in u :: go t1 r end) (dTab a0) (dPlist a1))
   else if is name "expect" then eL VZ (expect (dTab a0) (dPlist a1))
   else if is name "project" then eTab (project (dTab a0) (dL dStr a1))
   else if is name "projection_trace" then
